@@ -10,6 +10,7 @@ import (
 
 	sdkmath "cosmossdk.io/math"
 	sdk "github.com/cosmos/cosmos-sdk/types"
+	authtypes "github.com/cosmos/cosmos-sdk/x/auth/types"
 	banktypes "github.com/cosmos/cosmos-sdk/x/bank/types"
 	"github.com/ethereum/go-ethereum/common"
 	ethtypes "github.com/ethereum/go-ethereum/core/types"
@@ -41,12 +42,35 @@ type c06Case struct {
 }
 
 var c06EthVariants = []string{"unprotected", "chainid+1", "chainid-1", "from-other", "from-contract", "from-empty", "flip-v", "r+1", "s+1", "s-malleated", "payload-tamper", "nonce-1", "nonce+1"}
+// c06LongFromVariants: the declared sender is a funded account whose address is LONGER than 20 bytes and contains the signer's
+// address as its last / first 20 bytes (the SDK accepts account addresses of up to 255 bytes): declared sender != signer.
+// Only used in part A (the routing part keeps its own variant list).
+var c06LongFromVariants = []string{"from-pad|signer", "from-signer|pad"}
+
+// c06LongFrom is the declared sender of a long-from variant for wallet a.
+func c06LongFrom(variant string, a *world.Acct) sdk.AccAddress {
+	pad := []byte{0xAA, 0xAA, 0xAA, 0xAA, 0xAA, 0xAA, 0xAA, 0xAA, 0xAA, 0xAA, 0xAA, 0xAA}
+	if variant == "from-signer|pad" {
+		return sdk.AccAddress(append(append([]byte{}, a.Eth().Bytes()...), pad...))
+	}
+	return sdk.AccAddress(append(append([]byte{}, pad...), a.Eth().Bytes()...))
+}
+
 var c06CosmosVariants = []string{"sig-by-other-key", "wrong-chain-id", "seq-1", "seq+1", "accnum+1"}
 var c06Kinds = []string{"transfer", "revert", "oog", "value-too-high", "block-gas", "create-ok", "create-revert", "create-value-too-high"}
 
 func c06World() *world.World {
 	cs := append(StdContracts(), world.Contract{Addr: AddrBurnBig, Code: asm.New().BurnGas(5000).Stop().Bytes()})
-	return world.New(world.Config{MaxGas: 100_000, NumWallets: 3, Contracts: cs})
+	// funded base accounts (sequence 0) at the long addresses of the long-from variants
+	var extra []world.ExtraAccount
+	for i := 0; i < 3; i++ {
+		a := world.NewAcct(fmt.Sprintf("wal%d", i+1))
+		for _, v := range c06LongFromVariants {
+			extra = append(extra, world.ExtraAccount{Account: authtypes.NewBaseAccountWithAddress(c06LongFrom(v, a)),
+				Coins: sdk.NewCoins(sdk.NewCoin(world.Denom, sdkmath.NewIntFromBigInt(new(big.Int).Exp(big.NewInt(10), big.NewInt(21), nil))))})
+		}
+	}
+	return world.New(world.Config{MaxGas: 100_000, NumWallets: 3, Contracts: cs, Extra: extra})
 }
 
 // c06Build returns the tx bytes of an item given the sender's current expected nonce.
@@ -78,6 +102,10 @@ func c06Build(w *world.World, it c06Item, nonce uint64, base *big.Int) []byte {
 	}
 	tx, from, emptyFrom := c06BuildEth(w, it, nonce, base, big.NewInt(0))
 	bz, err := wrapEthFrom(w, tx, from, emptyFrom)
+	if strings.HasPrefix(it.Variant, "from-") && strings.Contains(it.Variant, "|") {
+		long := c06LongFrom(it.Variant, a).String()
+		bz, err = w.WrapEthE(tx, from, func(m *evmtypes.MsgEthereumTx) { m.From = long })
+	}
 	if err != nil {
 		// the envelope itself could not be built (e.g. message refuses the tx): offer raw garbage derived from the case
 		return []byte("unbuildable:" + err.Error())
@@ -163,6 +191,7 @@ func c06BuildEth(w *world.World, it c06Item, nonce uint64, base, tip *big.Int) (
 		from = other.Eth()
 	case "from-contract":
 		from = AddrLog1
+	case "from-pad|signer", "from-signer|pad": // the long declared sender is put into the message by c06Build
 	case "flip-v":
 		tx = rebuild(new(big.Int).Xor(v, one), r, s, value)
 	case "r+1":
@@ -367,7 +396,7 @@ func c06Cases(thorough bool) []c06Case {
 	types := []string{"legacy", "dynamic"}
 	// A. one adversarial variant at every position of short blocks
 	for _, k := range c06Kinds {
-		for _, v := range c06EthVariants {
+		for _, v := range append(append([]string{}, c06EthVariants...), c06LongFromVariants...) {
 			for _, tt := range types {
 				if tt == "dynamic" && (v == "unprotected") {
 					continue
@@ -493,7 +522,7 @@ func runC06(replay string) int {
 	run.Coverage["routing_cases"] = len(routeCases)
 	run.Coverage["exhaustive"] = true
 	run.Coverage["max_depth"] = 3
-	run.Coverage["rule"] = fmt.Sprintf("A: 8 tx kinds (transfer, revert, out-of-gas, value too high, block-gas-exhausting, create, reverting create, create with unaffordable endowment) × %d adversarial Ethereum encodings × {legacy, dynamic-fee} (+ %d Cosmos variants) at every position of 6 block shapes; B: byte-exact replays of every accepted tx kind at 7 later positions (same block, next block, two blocks later) and after every second tx kind. Every history with a rejected item is run twice (with / without the rejected items) and the AppHashes compared. distinct_nontrivial = histories containing ≥1 rejected item. ", len(c06EthVariants), len(c06CosmosVariants)) + c06RouteRule(run.Thorough())
+	run.Coverage["rule"] = fmt.Sprintf("A: 8 tx kinds (transfer, revert, out-of-gas, value too high, block-gas-exhausting, create, reverting create, create with unaffordable endowment) × %d adversarial Ethereum encodings (incl. a funded 32-byte declared sender that contains the signer's address as its last / first 20 bytes) × {legacy, dynamic-fee} (+ %d Cosmos variants) at every position of 6 block shapes; B: byte-exact replays of every accepted tx kind at 7 later positions (same block, next block, two blocks later) and after every second tx kind. Every history with a rejected item is run twice (with / without the rejected items) and the AppHashes compared. distinct_nontrivial = histories containing ≥1 rejected item. ", len(c06EthVariants)+len(c06LongFromVariants), len(c06CosmosVariants)) + c06RouteRule(run.Thorough())
 	return run.Finish()
 }
 
